@@ -192,9 +192,14 @@ def run_link_first(prog, rep):
             ok = False
             for gid, pol in guards or []:
                 g = f.nodes.get(gid)
-                if g is None or not pol:
+                if g is None:
                     continue
                 g = unwrap(g)
+                while g is not None and g.k == 'unop' and g.get('op') == '!' and g.c:
+                    g = unwrap(g.c[0])
+                    pol = not pol
+                if g is None or not pol:
+                    continue
                 if g.k == 'call' and (g.callee or {}).get('name') == 'hasObject':
                     ga = real_args(g)
                     r = unwrap(ga[0]) if ga else None
